@@ -474,7 +474,7 @@ type rawLine struct {
 var clauseKeywords = map[string]bool{
 	"requires": true, "ensures": true, "assigns": true, "tags": true, "loop": true, "invariant": true,
 	"decreases": true, "ghost": true, "pure": true, "panics": true, "nosafety": true, "checksafety": true, "doc": true, "use": true, "by": true,
-	"assert": true, "unroll": true, "trigger": true, "establishes": true, "split": true, "implements": true, "defines": true, "panicensures": true, "generalizing": true, "hint": true, "measure": true,
+	"assert": true, "unroll": true, "trigger": true, "establishes": true, "split": true, "implements": true, "defines": true, "panicensures": true, "generalizing": true, "hint": true, "measure": true, "anchor": true,
 }
 
 var topKeywords = map[string]bool{"macro": true, "func": true, "trusted": true, "spec": true, "axiom": true, "lemma": true, "ghostfield": true, "sentinel": true, "immutable": true, "consttable": true, "globalinv": true, "onlycalledfrom": true, "constfield": true, "typeinv": true, "storedonlyin": true, "fieldis": true, "overridesall": true, "deterministic": true}
@@ -690,6 +690,15 @@ func Parse(path, src string) (*File, error) {
 			} else if curAxiom != nil {
 				curAxiom.Doc = d
 			}
+		case "anchor":
+			if cur == nil {
+				return nil, fail(l, fmt.Errorf("anchor outside func"))
+			}
+			a := strings.TrimSpace(rest)
+			if len(a) < 2 || a[0] != '"' || a[len(a)-1] != '"' {
+				return nil, fail(l, fmt.Errorf("anchor \"text\""))
+			}
+			cur.Anchor = a[1 : len(a)-1]
 		case "tags":
 			tags := splitList(rest)
 			if cur != nil {
